@@ -132,11 +132,11 @@ def gen_scenarios(seed: int, n: int) -> list[dict[str, Any]]:
     out = []
     for i in range(n):
         interval, sharp, idle, initd = rnd.choice(confs)
-        conf = {'interval': interval, 'sharp': sharp, 'idle': idle, 'initdelay': initd, 'backoff': rnd.choice([1, 2, 3])}
+        conf = {'interval': interval, 'sharp': sharp, 'idle': idle, 'initdelay': initd, 'backoff': rnd.choice([1, 2, 3, 0])}
         runs = []
         for _ in range(rnd.randint(2, 7)):
             k = rnd.choices(['ok', 'temp', 'exc', 'perm'], [10, 3, 2, 1])[0]
-            runs.append((rnd.choice([0, 0, 1, 2, interval, interval + 1, 2 * interval + 1] if interval else [0, 1, 2]), k, rnd.choice([1, 2, 4]) if k == 'temp' else 0))
+            runs.append((rnd.choice([0, 0, 1, 2, interval, interval + 1, 2 * interval + 1] if interval else [0, 1, 2]), k, rnd.choice([1, 2, 4, 0]) if k == 'temp' else 0))
         changes = sorted(rnd.sample(range(2, 30), rnd.randint(0, 3)))
         out.append({'id': f'timer-{seed}-{i}', 'conf': conf, 'runs': runs, 'changes': changes,
                     'relist_changes': [changes.pop()] if changes and i % 4 == 3 else [],
